@@ -10,6 +10,7 @@ mod ord;
 mod ua;
 mod mf;
 mod wire;
+mod mem;
 
 pub fn parse_ints(toks: &[&str]) -> Vec<i64> {
     toks.iter().map(|t| t.parse::<i64>().expect("int")).collect()
@@ -45,6 +46,9 @@ pub fn canon_script(dbg: &str) -> String {
     out.join(";")
 }
 
+#[global_allocator]
+static GLOBAL: mem::Counting = mem::Counting;
+
 fn main() {
     let args: Vec<String> = std::env::args().collect();
     if args.len() < 3 { eprintln!("usage: bb <group> <casefile>"); std::process::exit(2) }
@@ -62,6 +66,7 @@ fn main() {
             "ua" => ua::run(&toks),
             "mf" => mf::run(&toks),
             "wire" => wire::run(&toks),
+            "mem" => mem::run(&toks),
             g => panic!("unknown group {}", g),
         }));
         match r {
